@@ -266,29 +266,27 @@ impl Condition {
         }
     }
 
+    /// A FILTER keeps a solution only when its expression is true; an
+    /// expression that raises an error (unbound variable, operands that cannot
+    /// be compared) is neither true nor false, also under `!`.
     pub fn evaluate(&self, result: &HashMap<String, String>) -> bool {
-        self.evaluate_filter(&self.expression, result)
+        self.evaluate_filter(&self.expression, result) == Some(true)
     }
 
     fn evaluate_filter(
         &self,
         expression: &ConditionExpression,
         result: &HashMap<String, String>,
-    ) -> bool {
+    ) -> Option<bool> {
         match expression {
             ConditionExpression::Comparison(variable, operator, value) => {
-                let Some(result_value) = result.get(Self::normalize_variable(variable)) else {
-                    return false;
-                };
+                let result_value = result.get(Self::normalize_variable(variable))?;
                 let rhs = if Self::is_variable(value) {
                     result
                         .get(Self::normalize_variable(value))
-                        .map(String::as_str)
+                        .map(String::as_str)?
                 } else {
-                    Some(Self::normalize_lexical(value))
-                };
-                let Some(rhs) = rhs else {
-                    return false;
+                    Self::normalize_lexical(value)
                 };
                 let lhs = Self::normalize_lexical(result_value);
                 Self::compare_lexical(lhs, operator, rhs)
@@ -300,21 +298,21 @@ impl Condition {
                         .parse::<f64>()
                         .ok()
                 };
-                let Ok(left) = Self::evaluate_arithmetic(left, &resolver) else {
-                    return false;
-                };
-                let Ok(right) = Self::evaluate_arithmetic(right, &resolver) else {
-                    return false;
-                };
+                let left = Self::evaluate_arithmetic(left, &resolver).ok()?;
+                let right = Self::evaluate_arithmetic(right, &resolver).ok()?;
                 Self::compare_numeric(left, operator, right)
             }
-            ConditionExpression::And(left, right) => {
-                self.evaluate_filter(left, result) && self.evaluate_filter(right, result)
+            ConditionExpression::And(left, right) => Self::logical_and(
+                self.evaluate_filter(left, result),
+                || self.evaluate_filter(right, result),
+            ),
+            ConditionExpression::Or(left, right) => Self::logical_or(
+                self.evaluate_filter(left, result),
+                || self.evaluate_filter(right, result),
+            ),
+            ConditionExpression::Not(inner) => {
+                self.evaluate_filter(inner, result).map(|value| !value)
             }
-            ConditionExpression::Or(left, right) => {
-                self.evaluate_filter(left, result) || self.evaluate_filter(right, result)
-            }
-            ConditionExpression::Not(inner) => !self.evaluate_filter(inner, result),
             ConditionExpression::ArithmeticExpr(expression) => {
                 let resolver = |variable: &str| {
                     result
@@ -323,16 +321,14 @@ impl Condition {
                         .ok()
                 };
                 Self::evaluate_arithmetic(expression, &resolver)
+                    .ok()
                     .map(|value| value != 0.0)
-                    .unwrap_or(false)
             }
             ConditionExpression::FunctionCall(name, arguments) => {
                 if name != "isTRIPLE" {
-                    return false;
+                    return None;
                 }
-                let Some(argument) = arguments.first() else {
-                    return false;
-                };
+                let argument = arguments.first()?;
                 let value = if Self::is_variable(argument) {
                     result
                         .get(Self::normalize_variable(argument))
@@ -341,32 +337,65 @@ impl Condition {
                 } else {
                     argument
                 };
-                value.starts_with("<<") && value.ends_with(">>")
+                Some(value.starts_with("<<") && value.ends_with(">>"))
             }
         }
     }
 
-    fn compare_lexical(lhs: &str, operator: &str, rhs: &str) -> bool {
-        match operator {
-            "=" => lhs == rhs,
-            "!=" => lhs != rhs,
-            ">" => lhs.parse::<f64>().unwrap_or(0.0) > rhs.parse::<f64>().unwrap_or(0.0),
-            ">=" => lhs.parse::<f64>().unwrap_or(0.0) >= rhs.parse::<f64>().unwrap_or(0.0),
-            "<" => lhs.parse::<f64>().unwrap_or(0.0) < rhs.parse::<f64>().unwrap_or(0.0),
-            "<=" => lhs.parse::<f64>().unwrap_or(0.0) <= rhs.parse::<f64>().unwrap_or(0.0),
-            _ => false,
+    /// SPARQL's three-valued conjunction: false wins over an error.
+    fn logical_and(left: Option<bool>, right: impl FnOnce() -> Option<bool>) -> Option<bool> {
+        if left == Some(false) {
+            return Some(false);
+        }
+        match (left, right()) {
+            (_, Some(false)) => Some(false),
+            (Some(true), Some(true)) => Some(true),
+            _ => None,
         }
     }
 
-    fn compare_numeric(lhs: f64, operator: &str, rhs: f64) -> bool {
+    /// SPARQL's three-valued disjunction: true wins over an error.
+    fn logical_or(left: Option<bool>, right: impl FnOnce() -> Option<bool>) -> Option<bool> {
+        if left == Some(true) {
+            return Some(true);
+        }
+        match (left, right()) {
+            (_, Some(true)) => Some(true),
+            (Some(false), Some(false)) => Some(false),
+            _ => None,
+        }
+    }
+
+    /// Numbers are ordered numerically, other values lexically; a number and
+    /// a non-number cannot be ordered.
+    fn compare_lexical(lhs: &str, operator: &str, rhs: &str) -> Option<bool> {
+        let ordering = match operator {
+            "=" => return Some(lhs == rhs),
+            "!=" => return Some(lhs != rhs),
+            ">" | ">=" | "<" | "<=" => match (lhs.parse::<f64>(), rhs.parse::<f64>()) {
+                (Ok(lhs), Ok(rhs)) => lhs.partial_cmp(&rhs)?,
+                (Err(_), Err(_)) => lhs.cmp(rhs),
+                _ => return None,
+            },
+            _ => return None,
+        };
+        Some(match operator {
+            ">" => ordering.is_gt(),
+            ">=" => ordering.is_ge(),
+            "<" => ordering.is_lt(),
+            _ => ordering.is_le(),
+        })
+    }
+
+    fn compare_numeric(lhs: f64, operator: &str, rhs: f64) -> Option<bool> {
         match operator {
-            "=" => lhs == rhs,
-            "!=" => lhs != rhs,
-            ">" => lhs > rhs,
-            ">=" => lhs >= rhs,
-            "<" => lhs < rhs,
-            "<=" => lhs <= rhs,
-            _ => false,
+            "=" => Some(lhs == rhs),
+            "!=" => Some(lhs != rhs),
+            ">" => Some(lhs > rhs),
+            ">=" => Some(lhs >= rhs),
+            "<" => Some(lhs < rhs),
+            "<=" => Some(lhs <= rhs),
+            _ => None,
         }
     }
 
@@ -375,7 +404,7 @@ impl Condition {
         result: &HashMap<String, u32>,
         dictionary: &Dictionary,
     ) -> bool {
-        self.evaluate_filter_with_ids(&self.expression, result, dictionary)
+        self.evaluate_filter_with_ids(&self.expression, result, dictionary) == Some(true)
     }
 
     fn evaluate_filter_with_ids(
@@ -383,19 +412,15 @@ impl Condition {
         expression: &ConditionExpression,
         result: &HashMap<String, u32>,
         dictionary: &Dictionary,
-    ) -> bool {
+    ) -> Option<bool> {
         match expression {
             ConditionExpression::Comparison(variable, operator, value) => {
-                let Some(&id) = result.get(Self::normalize_variable(variable)) else {
-                    return false;
-                };
+                let &id = result.get(Self::normalize_variable(variable))?;
                 if Self::is_variable(value) {
-                    let Some(&rhs) = result.get(Self::normalize_variable(value)) else {
-                        return false;
-                    };
+                    let &rhs = result.get(Self::normalize_variable(value))?;
                     return match operator.as_str() {
-                        "=" => id == rhs,
-                        "!=" => id != rhs,
+                        "=" => Some(id == rhs),
+                        "!=" => Some(id != rhs),
                         _ => {
                             let lhs = dictionary.decode(id).unwrap_or("");
                             let rhs = dictionary.decode(rhs).unwrap_or("");
@@ -413,45 +438,41 @@ impl Condition {
                     let &id = result.get(Self::normalize_variable(variable))?;
                     dictionary.decode(id)?.parse::<f64>().ok()
                 };
-                let Ok(left) = Self::evaluate_arithmetic(left, &resolver) else {
-                    return false;
-                };
-                let Ok(right) = Self::evaluate_arithmetic(right, &resolver) else {
-                    return false;
-                };
+                let left = Self::evaluate_arithmetic(left, &resolver).ok()?;
+                let right = Self::evaluate_arithmetic(right, &resolver).ok()?;
                 Self::compare_numeric(left, operator, right)
             }
-            ConditionExpression::And(left, right) => {
-                self.evaluate_filter_with_ids(left, result, dictionary)
-                    && self.evaluate_filter_with_ids(right, result, dictionary)
-            }
-            ConditionExpression::Or(left, right) => {
-                self.evaluate_filter_with_ids(left, result, dictionary)
-                    || self.evaluate_filter_with_ids(right, result, dictionary)
-            }
-            ConditionExpression::Not(inner) => {
-                !self.evaluate_filter_with_ids(inner, result, dictionary)
-            }
+            ConditionExpression::And(left, right) => Self::logical_and(
+                self.evaluate_filter_with_ids(left, result, dictionary),
+                || self.evaluate_filter_with_ids(right, result, dictionary),
+            ),
+            ConditionExpression::Or(left, right) => Self::logical_or(
+                self.evaluate_filter_with_ids(left, result, dictionary),
+                || self.evaluate_filter_with_ids(right, result, dictionary),
+            ),
+            ConditionExpression::Not(inner) => self
+                .evaluate_filter_with_ids(inner, result, dictionary)
+                .map(|value| !value),
             ConditionExpression::ArithmeticExpr(expression) => {
                 let resolver = |variable: &str| {
                     let &id = result.get(Self::normalize_variable(variable))?;
                     dictionary.decode(id)?.parse::<f64>().ok()
                 };
                 Self::evaluate_arithmetic(expression, &resolver)
+                    .ok()
                     .map(|value| value != 0.0)
-                    .unwrap_or(false)
             }
             ConditionExpression::FunctionCall(name, arguments) => {
                 use shared::quoted_triple_store::is_quoted_triple_id;
                 if name != "isTRIPLE" {
-                    return false;
+                    return None;
                 }
-                let Some(argument) = arguments.first() else {
-                    return false;
-                };
-                result
-                    .get(Self::normalize_variable(argument))
-                    .is_some_and(|id| is_quoted_triple_id(*id))
+                let argument = arguments.first()?;
+                Some(
+                    result
+                        .get(Self::normalize_variable(argument))
+                        .is_some_and(|id| is_quoted_triple_id(*id)),
+                )
             }
         }
     }
